@@ -117,7 +117,7 @@ pub fn generate(property: &str, verif_seed: u64, index: u64, thorough: bool) -> 
 
 /// does a recorded violation count for the property under check?
 pub fn counts_for(v_property: &str, property: &str) -> bool {
-    v_property == "*" || v_property.split('+').any(|p| p == property)
+    nucleo_verif_rt::sim::counts_for(v_property, property)
 }
 
 struct Args(Vec<String>);
@@ -168,6 +168,7 @@ fn batch(a: &Args) -> i32 {
     let t0 = std::time::Instant::now();
     let budget = a.get("--budget-s").map(|s| s.parse::<f64>().unwrap());
 
+    exec::set_check_property(&property);
     let mut i = start;
     let end = start + count;
     let meta: Rc<RefCell<BTreeMap<usize, (u64, AnyScript, &'static str)>>> = Default::default();
@@ -250,7 +251,7 @@ fn batch(a: &Args) -> i32 {
                 if ag.violations.len() as u64 >= max_viol {
                     *stop2.borrow_mut() = true;
                 }
-            } else if let Some(v) = out.violations.first() {
+            } else if let Some(v) = out.violations.first().or(out.others.first()) {
                 if ag.other.len() < 20 {
                     ag.other.push(json!({"index": index, "property": v.property, "class": v.class, "message": v.message}));
                 }
@@ -297,6 +298,7 @@ pub fn load_replay(path: &str) -> ReplayFile {
 fn replay(a: &Args) -> i32 {
     let path = a.0.get(1).expect("replay FILE").clone();
     let rf = load_replay(&path);
+    exec::set_check_property(&rf.property);
     let out = exec::run_one(rf.script.job(), Some(rf.trace.clone()));
     let hit = out.violations.first().filter(|v| counts_for(&v.property, &rf.property) && v.class == rf.violation.class);
     if a.flag("--verbose") {
